@@ -3,6 +3,7 @@ CONSTANTS
   MaxWorkers = 1
   Runtimes = {"threaded", "tokio"}
   MaxReq = 1
+  Kinds = {"close", "keep", "ws"}
   Dev = {}
 SPECIFICATION SpecAllFair
 INVARIANTS TypeOK
